@@ -45,6 +45,7 @@ type UnitResult struct {
 	AssertQueries   int `json:"assert_queries"`
 	AssertsProved   int `json:"asserts_proved"`
 	AssertsByFacts  int `json:"asserts_by_path_facts"`
+	AssertsByGlobal int `json:"asserts_by_validity_under_assumptions"`
 	UnknownFeas     int `json:"unknown_feasibility"`
 	ReachedEnd      int `json:"reached_end"`
 
@@ -79,7 +80,7 @@ func (e *Engine) modelOf(st *State) Model {
 	if st.Model != nil {
 		return st.Model
 	}
-	r, m := e.solver.Check(st.PC, nil, e.cfg.AssertTimeout, true)
+	r, m := e.solver.Check(st.feasPC(), nil, e.cfg.AssertTimeout, true)
 	if r == Sat {
 		st.Model = m
 		return m
@@ -158,7 +159,7 @@ func RunUnit(ld *Loaded, harness string, cfg Config, workDir string, seed int, p
 			}
 		}
 	}()
-	liveSolver = "z3"
+	liveSolver = "z3-new"
 	if cfg.Live != "" {
 		liveSolver = cfg.Live
 	}
